@@ -88,7 +88,7 @@ def replay(task, script):
 
 
 def bounds(tier):
-    return {"part_A_ops_N": 5 if tier == "quick" else 7, "part_A_rng_deviations": 2 if tier == "quick" else 3,
+    return {"part_A_ops_N": "3..5 by arity" if tier == "quick" else "4..6 by arity", "part_A_rng_deviations": 1 if tier == "quick" else 2,
             "part_B_full_T": 6 if tier == "quick" else 8, "part_B_full_rewards": list(configs.R2),
             "part_B_dev_T": 40 if tier == "quick" else 100, "part_B_dev_k": 1 if tier == "quick" else 2,
             "partitions": [list(p) for p in configs.PART_VARIANTS]}
